@@ -3,7 +3,7 @@ use vstd::prelude::*;
 use vstd::std_specs::convert::FromSpecImpl;
 use crate::ffi;
 use crate::ffi::ParamError;
-use crate::rodbus::client::{FfiChannel, FfiChannelError, RequestParam, WriteMultiple, FfiCall, ClientState};
+use crate::rodbus::client::{FfiChannel, FfiChannelError, RequestParam, WriteMultiple, FfiCall, ClientState, MaybeAsync, RetryStrategy, Listener};
 use crate::rodbus;
 use crate::rodbus::{AddressRange, UnitId};
 use crate::sfio_promise;
@@ -124,4 +124,25 @@ impl FromSpecImpl<crate::rodbus::client::PortState> for ffi::PortState {
 }
 impl From<crate::rodbus::client::PortState> for ffi::PortState {
 //@fn ffi/rodbus-ffi/src/client.rs | From<rodbus::client::PortState> for ffi::PortState::from | tags=C18
+}
+
+// [C18] the connection-state listener handed to the channel reports every state to the C callback as its same-named counterpart
+//@item ffi/rodbus-ffi/src/client.rs | ClientStateListener
+impl crate::rodbus::client::Listener<ClientState> for ClientStateListener {
+//@fn ffi/rodbus-ffi/src/client.rs | Listener<ClientState> for ClientStateListener::update | tags=C18
+//@|    ensures final(self).inner == old(self).inner, old(self).inner.notified(spec_client_state(value)),
+}
+//@item ffi/rodbus-ffi/src/client.rs | PortStateListener
+impl crate::rodbus::client::Listener<crate::rodbus::client::PortState> for PortStateListener {
+//@fn ffi/rodbus-ffi/src/client.rs | Listener<rodbus::client::PortState> for PortStateListener::update | tags=C18
+//@|    ensures final(self).inner == old(self).inner, old(self).inner.notified(spec_port_state(value)),
+}
+// [C18,C14] the reconnect strategy is built from exactly the minimum and maximum delay passed by C
+impl From<ffi::RetryStrategy> for Box<dyn crate::rodbus::client::RetryStrategy> {
+//@fn ffi/rodbus-ffi/src/helpers/conversions.rs | From<ffi::RetryStrategy> for Box<dyn RetryStrategy>::from | tags=C14,C18
+//@|    ensures r.cfg_min() == ffi::spec_millis(from.min_delay), r.cfg_max() == ffi::spec_millis(from.max_delay),
+}
+impl FromSpecImpl<ffi::RetryStrategy> for Box<dyn crate::rodbus::client::RetryStrategy> {
+    open spec fn obeys_from_spec() -> bool { false }
+    open spec fn from_spec(from: ffi::RetryStrategy) -> Self { arbitrary() }
 }
